@@ -25,13 +25,22 @@ pub enum Stat {
     Do(Vec<Stat>),
     If(Expr, Vec<Stat>, Vec<Stat>),
     CallS(Name, Vec<Expr>),
+    /// `local n <const> = val`
+    LocalAttr(Name, Expr),
+    /// `function obj.f1…fk(ps) body end`; with `colon` the last separator is `:` (implicit `self`)
+    Method(Name, usize, bool, Vec<Name>, Vec<Stat>),
 }
+
+pub const SELF: Name = 3;
+pub const DOTS: Name = 4;
 
 pub fn name_text(n: Name) -> String {
     match n {
         0 => "x".into(),
         1 => "y".into(),
         2 => "z".into(),
+        3 => "self".into(),
+        4 => "...".into(),
         k => format!("v{k}"),
     }
 }
@@ -123,6 +132,14 @@ fn enc_stat(s: &Stat, out: &mut Vec<String>) {
                 enc_expr(a, out);
             }
             out.push(format!("S{f}:{}", args.len()));
+        }
+        Stat::LocalAttr(n, v) => {
+            enc_expr(v, out);
+            out.push(format!("K{n}"));
+        }
+        Stat::Method(obj, k, colon, ps, body) => {
+            enc_block(body, out);
+            out.push(format!("M{obj};{k};{};{}:{}", if *colon { 1 } else { 0 }, names(ps), body.len()));
         }
     }
 }
@@ -237,6 +254,18 @@ pub fn decode(s: &str) -> Option<Vec<Stat>> {
             ("S", [f, k]) => {
                 let a = pop_exprs(num(k)?, &mut st)?;
                 st.push(V::S(Stat::CallS(f.parse().ok()?, a)));
+            }
+            ("K", [n]) => {
+                let e = pop_exprs(1, &mut st)?.pop()?;
+                st.push(V::S(Stat::LocalAttr(n.parse().ok()?, e)));
+            }
+            ("M", [hd, b]) => {
+                let h: Vec<&str> = hd.split(';').collect();
+                if h.len() != 4 {
+                    return None;
+                }
+                let body = pop_stats(num(b)?, &mut st)?;
+                st.push(V::S(Stat::Method(h[0].parse().ok()?, num(h[1])?, h[2] == "1", parse_names(h[3])?, body)));
             }
             _ => return None,
         }
@@ -428,6 +457,28 @@ impl R {
                 self.exprs(args);
                 self.t(")");
             }
+            Stat::LocalAttr(n, v) => {
+                self.t("local");
+                self.decl(*n);
+                self.t("<");
+                self.t("const");
+                self.t(">");
+                self.t("=");
+                self.expr(v);
+            }
+            Stat::Method(obj, k, colon, ps, body) => {
+                self.t("function");
+                self.use_(*obj);
+                for i in 0..*k {
+                    self.t(if *colon && i + 1 == *k { ":" } else { "." });
+                    self.t(&format!("m{i}"));
+                }
+                self.t("(");
+                self.decls(ps);
+                self.t(")");
+                self.block(body);
+                self.t("end");
+            }
         }
     }
 }
@@ -497,6 +548,8 @@ fn size_stat(s: &Stat) -> usize {
         Stat::ForNum(_, a, c, b) => size_expr(a) + size_expr(c) + size_block(b),
         Stat::ForIn(_, e, b) | Stat::While(e, b) | Stat::Repeat(b, e) => size_expr(e) + size_block(b),
         Stat::If(c, t, e) => size_expr(c) + size_block(t) + size_block(e),
+        Stat::LocalAttr(_, e) => size_expr(e),
+        Stat::Method(_, _, _, _, b) => size_block(b),
     }
 }
 
@@ -519,6 +572,8 @@ fn stat_mentions(s: &Stat, ns: &[Name]) -> bool {
         Stat::ForNum(_, a, c, b) => expr_mentions(a, ns) || expr_mentions(c, ns) || bl(b),
         Stat::ForIn(_, e, b) | Stat::While(e, b) | Stat::Repeat(b, e) => expr_mentions(e, ns) || bl(b),
         Stat::If(c, t, e) => expr_mentions(c, ns) || bl(t) || bl(e),
+        Stat::LocalAttr(_, e) => expr_mentions(e, ns),
+        Stat::Method(obj, _, _, _, b) => ns.contains(obj) || bl(b),
     }
 }
 
@@ -612,6 +667,13 @@ pub fn features(p: &[Stat]) -> Features {
                     bl(t, f);
                     bl(e, f);
                 }
+                Stat::LocalAttr(_, e) => ex(e, f),
+                Stat::Method(_, _, _, ps, b) => {
+                    if has_dup(ps) {
+                        f.duplicate_names_in_one_declaration = true;
+                    }
+                    bl(b, f);
+                }
             }
         }
     }
@@ -638,11 +700,31 @@ pub fn class_of(p: &[Stat]) -> Option<&'static str> {
 pub struct Gen<'a> {
     pub rng: &'a mut Rng,
     pub names: u32,
+    /// the enclosing function is a vararg function (or the main chunk): `...` may be used
+    pub vararg: bool,
 }
 
 impl<'a> Gen<'a> {
+    /// an identifier: x, y, z, now and then `self`
     fn name(&mut self) -> Name {
-        self.rng.below(self.names as usize) as Name
+        if self.rng.chance(1, 12) { SELF } else { self.rng.below(self.names as usize) as Name }
+    }
+    /// parameter list, possibly ending in `...`; returns whether it is a vararg list
+    fn params(&mut self) -> (Vec<Name>, bool) {
+        let mut ps = self.names(0, 2);
+        let va = self.rng.chance(1, 4);
+        if va {
+            ps.push(DOTS);
+        }
+        (ps, va)
+    }
+    /// a function body: `...` is usable in it iff the function is a vararg function
+    fn body(&mut self, va: bool, depth: usize, budget: &mut isize, max: usize) -> Vec<Stat> {
+        let saved = self.vararg;
+        self.vararg = va;
+        let b = self.block(depth, budget, max);
+        self.vararg = saved;
+        b
     }
     fn names(&mut self, lo: usize, hi: usize) -> Vec<Name> {
         let k = self.rng.range(lo, hi);
@@ -651,6 +733,9 @@ impl<'a> Gen<'a> {
     pub fn expr(&mut self, depth: usize, budget: &mut isize) -> Expr {
         *budget -= 1;
         let c = if depth == 0 || *budget <= 0 { self.rng.below(5) } else { self.rng.below(10) };
+        if self.vararg && self.rng.chance(1, 10) {
+            return Expr::Name(DOTS);
+        }
         match c {
             0..=3 => Expr::Name(self.name()),
             4 => Expr::Lit,
@@ -660,8 +745,8 @@ impl<'a> Gen<'a> {
                 Expr::Call(f, (0..k).map(|_| self.expr(depth - 1, budget)).collect())
             }
             _ => {
-                let ps = self.names(0, 2);
-                let body = self.block(depth - 1, budget, 2);
+                let (ps, va) = self.params();
+                let body = self.body(va, depth - 1, budget, 2);
                 Expr::Func(ps, body)
             }
         }
@@ -676,7 +761,13 @@ impl<'a> Gen<'a> {
     }
     pub fn stat(&mut self, depth: usize, budget: &mut isize) -> Stat {
         *budget -= 1;
-        let c = if depth == 0 || *budget <= 0 { self.rng.below(8) } else { self.rng.below(22) };
+        let c = if depth == 0 || *budget <= 0 { self.rng.below(9) } else { self.rng.below(26) };
+        let c = match c {
+            8 => 22,  // local with attribute
+            9..=22 => c - 1,
+            23..=25 => 23, // method / field function statement
+            _ => c,
+        };
         let d = depth.saturating_sub(1);
         match c {
             0..=2 => {
@@ -694,12 +785,25 @@ impl<'a> Gen<'a> {
                 Stat::CallS(f, self.exprs(0, 2, depth.min(2), budget))
             }
             8 | 9 => {
-                let (n, ps) = (self.name(), self.names(0, 2));
-                Stat::LocalFunc(n, ps, self.block(d, budget, 3))
+                let n = self.name();
+                let (ps, va) = self.params();
+                Stat::LocalFunc(n, ps, self.body(va, d, budget, 3))
             }
             10 | 11 => {
-                let (n, ps) = (self.name(), self.names(0, 2));
-                Stat::FuncStat(n, ps, self.block(d, budget, 3))
+                let n = self.name();
+                let (ps, va) = self.params();
+                Stat::FuncStat(n, ps, self.body(va, d, budget, 3))
+            }
+            22 => {
+                let n = self.name();
+                Stat::LocalAttr(n, self.expr(depth.min(2), budget))
+            }
+            23 => {
+                let obj = self.name();
+                let k = self.rng.range(1, 2);
+                let colon = self.rng.chance(2, 3);
+                let (ps, va) = self.params();
+                Stat::Method(obj, k, colon, ps, self.body(va, d, budget, 3))
             }
             12 | 13 => {
                 let v = self.name();
@@ -793,7 +897,18 @@ pub fn shapes() -> Vec<Stat> {
         out.push(If(y(), vec![Local(vec![0], vec![Lit])], b.clone()));
         out.push(ForIn(vec![0, 1], x(), b.clone()));
         out.push(ForIn(vec![0, 0], y(), b.clone()));
+        out.push(Method(0, 1, true, vec![1], b.clone()));
+        out.push(Method(1, 2, false, vec![SELF, 0], b.clone()));
     }
+    for m in [true, false] {
+        out.push(Method(0, 1, m, vec![], vec![CallS(2, vec![Name(SELF), x()])]));
+        out.push(Method(2, 2, m, vec![SELF], vec![Local(vec![SELF], vec![Name(SELF)]), CallS(2, vec![Name(SELF)])]));
+        out.push(Method(0, 1, m, vec![0, DOTS], vec![CallS(2, vec![Name(DOTS), Func(vec![], vec![CallS(2, vec![Name(SELF)])])])]));
+    }
+    out.push(LocalAttr(0, x()));
+    out.push(LocalAttr(1, Func(vec![1, DOTS], vec![CallS(2, vec![y(), Name(DOTS)])])));
+    out.push(Local(vec![SELF], vec![Name(SELF)]));
+    out.push(CallS(2, vec![Name(DOTS), Name(SELF)]));
     for e in &exprs1 {
         for b in &bodies {
             out.push(ForNum(0, e.clone(), x(), b.clone()));
@@ -838,4 +953,144 @@ pub fn family() -> Vec<Vec<Stat>> {
         }
     }
     out
+}
+
+// ---------------------------------------------------------------- exhaustive enumeration by size
+
+/// All programs with exactly `n` AST nodes (statements + expressions) over the names x, y (uses and
+/// binders), callee z, binder lists from a fixed small set, at most two statements per block and two
+/// arguments per call. Deterministic order.
+pub struct Enum {
+    exprs: Vec<Vec<Expr>>,
+    stats: Vec<Vec<Stat>>,
+    blocks: Vec<Vec<Vec<Stat>>>,
+}
+
+impl Enum {
+    pub fn new(max: usize) -> Enum {
+        let mut e = Enum { exprs: vec![vec![]], stats: vec![vec![]], blocks: vec![vec![vec![]]] };
+        for n in 1..=max {
+            let ex = e.gen_exprs(n);
+            e.exprs.push(ex);
+            let st = e.gen_stats(n);
+            e.stats.push(st);
+            let bl = e.gen_blocks(n);
+            e.blocks.push(bl);
+        }
+        e
+    }
+    pub fn programs(&self, n: usize) -> &Vec<Vec<Stat>> {
+        &self.blocks[n]
+    }
+    fn binders() -> Vec<Vec<Name>> {
+        vec![vec![0], vec![1], vec![0, 0], vec![0, 1]]
+    }
+    fn params() -> Vec<Vec<Name>> {
+        vec![vec![], vec![0], vec![1, DOTS]]
+    }
+    fn gen_exprs(&self, n: usize) -> Vec<Expr> {
+        let mut out = Vec::new();
+        if n == 1 {
+            out.push(Expr::Name(0));
+            out.push(Expr::Name(1));
+            out.push(Expr::Lit);
+            out.push(Expr::Call(2, vec![]));
+        }
+        // call with one or two arguments
+        for a in 1..n {
+            for e1 in &self.exprs[a] {
+                if a + 1 == n {
+                    out.push(Expr::Call(2, vec![e1.clone()]));
+                }
+                let rest = n - 1 - a;
+                if rest >= 1 && rest < n {
+                    for e2 in &self.exprs[rest] {
+                        out.push(Expr::Call(2, vec![e1.clone(), e2.clone()]));
+                    }
+                }
+            }
+        }
+        // closure
+        for ps in Self::params() {
+            for b in &self.blocks[n - 1] {
+                out.push(Expr::Func(ps.clone(), b.clone()));
+            }
+        }
+        out
+    }
+    fn gen_stats(&self, n: usize) -> Vec<Stat> {
+        let mut out = Vec::new();
+        let m = n - 1;
+        // no sub-terms
+        if m == 0 {
+            for ns in Self::binders() {
+                out.push(Stat::Local(ns, vec![]));
+            }
+            out.push(Stat::CallS(2, vec![]));
+        }
+        // one expression
+        if m >= 1 {
+            for e in &self.exprs[m] {
+                out.push(Stat::Local(vec![0], vec![e.clone()]));
+                out.push(Stat::Local(vec![1, 1], vec![e.clone()]));
+                out.push(Stat::Assign(vec![0], vec![e.clone()]));
+                out.push(Stat::CallS(2, vec![e.clone()]));
+                out.push(Stat::LocalAttr(0, e.clone()));
+            }
+        }
+        // one block
+        for b in &self.blocks[m] {
+            out.push(Stat::Do(b.clone()));
+            for ps in Self::params() {
+                out.push(Stat::LocalFunc(0, ps.clone(), b.clone()));
+                out.push(Stat::FuncStat(0, ps.clone(), b.clone()));
+            }
+            out.push(Stat::Method(0, 1, true, vec![1], b.clone()));
+            out.push(Stat::Method(1, 1, false, vec![SELF], b.clone()));
+        }
+        // expression + block
+        for a in 1..=m {
+            for e in &self.exprs[a] {
+                for b in &self.blocks[m - a] {
+                    out.push(Stat::While(e.clone(), b.clone()));
+                    out.push(Stat::Repeat(b.clone(), e.clone()));
+                    out.push(Stat::ForIn(vec![0], e.clone(), b.clone()));
+                    out.push(Stat::ForIn(vec![0, 0], e.clone(), b.clone()));
+                    out.push(Stat::If(e.clone(), b.clone(), vec![]));
+                }
+            }
+        }
+        // two expressions (+ block)
+        for a in 1..m {
+            for e1 in &self.exprs[a] {
+                for c in 1..=(m - a) {
+                    for e2 in &self.exprs[c] {
+                        let rest = m - a - c;
+                        if rest == 0 {
+                            out.push(Stat::Local(vec![0, 1], vec![e1.clone(), e2.clone()]));
+                            out.push(Stat::Assign(vec![0, 1], vec![e1.clone(), e2.clone()]));
+                        }
+                        for b in &self.blocks[rest] {
+                            out.push(Stat::ForNum(0, e1.clone(), e2.clone(), b.clone()));
+                        }
+                    }
+                }
+            }
+        }
+        out
+    }
+    fn gen_blocks(&self, n: usize) -> Vec<Vec<Stat>> {
+        let mut out = Vec::new();
+        for s in &self.stats[n] {
+            out.push(vec![s.clone()]);
+        }
+        for a in 1..n {
+            for s1 in &self.stats[a] {
+                for s2 in &self.stats[n - a] {
+                    out.push(vec![s1.clone(), s2.clone()]);
+                }
+            }
+        }
+        out
+    }
 }
